@@ -26,8 +26,35 @@ RULE = ("exhaustive small grids (reflection vectors of length <= 3 over a 9-poin
         "object passed again, numerically equal coefficients given as float / int / Fraction in both orders with "
         "critical denominators whose binary64 verdict differs from the exact one, two parcor generators drained in "
         "turns, CascadeFilter), every history in a forked child of a pristine process; a history is non-trivial when "
-        "it contains a parcor / parcor_stable query")
+        "it contains a parcor / parcor_stable query; "
+        "round 3: NEAR-CRITICAL inputs in exact arithmetic (reflection vectors with entries at distance 1e-3..1e-15 "
+        "from +-1 on either side, real poles and conjugate pairs at distance 1e-3..1e-12 from the unit circle inside / "
+        "outside, alone, with ordinary poles, beside really critical ones, any gain): ParCorError iff some |k| = 1 "
+        "exactly, verdict iff all |k| < 1, and parcor_stable on every stepped-up filter; FLOAT regime (entry fparcor, "
+        "harness/props/c11_float.py): int / float coefficient lists of order 1-8 (integer denominators with poles known "
+        "by construction and leading coefficient c*prod b_i, every int lead 1..300 in the thorough tier, float step-ups "
+        "times random float gains, float near-critical, raw), compared BIT FOR BIT with the binary64 run of the same "
+        "loop and, where well conditioned, with the exact specification on the same numbers (1e-9); CALL shapes (entry "
+        "call): ZFilter(num, den) with Laurent numerator / denominator (powers from -2, missing power 0, leading / "
+        "trailing zeros, constant / zero / feedback denominators) built from dicts, lists or z-expressions, positional "
+        "or keyword call - error branches ValueError / ZeroDivisionError included")
 TRUSTED = [
+    "float regime (round 3): the driver runs ALV.C11.parcorFixedG / parcorStableFixedG - the loop of the theorems, "
+    "parameterised by the squaring function and PROVED equal to parcorFixed / parcorStableFixed for sq = k*k "
+    "(Props.C11.floatloop_is_model) - on binary64 bit patterns (ALV.C11.F64) with sq = Float.pow(k, 2). Trusted, not "
+    "proved: (i) Lean's Float + - * / and Python's float + - * / are the same IEEE-754 binary64 round-to-nearest "
+    "operations of this machine, (ii) Lean's Float.pow and CPython's float ** call the same libm pow (checked on every "
+    "run on a fixed table of 4048 numbers, which contains numbers where pow(k,2) != k*k: extra check "
+    "float-twin-pow-is-cpython-pow), (iii) the operation ORDER of the model is the code's (read from lazy_filters.py / "
+    "lazy_poly.py: c*(1/g), a+(-(k*c)), (..)*(1/(1-k**2)), (c+(-c))+1; documented in ALV/Model/C11Float.lean) - this is "
+    "what the bit-for-bit comparison validates, (iv) -0.0 is stored as +0.0 (Python's == 0 does not see the sign; no "
+    "division by a zero survives); runs that meet inf / nan are flagged and not compared (CPython raises OverflowError "
+    "from ** where C returns inf). No theorem is ABOUT binary64 arithmetic",
+    "call shapes (round 3): hand-written model ALV/Model/C11Call.lean of LinearFilter.__init__'s shift and of the "
+    "branches of parcor before the loop (len(den) != 1, gain == 0, negative powers left); the z-expression / list / dict "
+    "constructions and the keyword call are exercised on the real code and compared with the one model",
+    "lsf / lsf_stable (same file, 'see also' of parcor_stable) import numpy.roots, which is absent here: they raise "
+    "ImportError after their own ValueError('Filter has feedback') test and are neither modelled nor tied",
     "hand-written Lean model ALV/Model/C11.lean of lazy_lpc.parcor / parcor_stable / levinson_durbin "
     "(modelled, not verified: ZFilter/Poly arithmetic as a window of Laurent coefficients over a field, "
     "generator protocol, all()'s short circuit)",
@@ -60,7 +87,13 @@ ASSUMPTIONS = [
     "or fractional powers, and never hashes a Poly (a hashed Poly refuses item assignment)",
 ]
 MANIFEST = {
-    "text": ("Lean 4 theorems, for every order and any field: parcor as coded inverts the step-up recursion and "
+    "text": ("ROUND 3: sharp step-down (every reflection vector: yields up to and including the first k with k^2 = 1 "
+             "and raises there, completes otherwise; ParCorError iff some input k = +-1; verdict of a stepped-up filter "
+             "= all |k| < 1; for every eps > 0 a coefficient within eps of 1 on either side that is NOT critical), the "
+             "loop parameterised by the squaring function = the model (so that the binary64 run with libm pow is the same "
+             "definition), the call on Laurent numerators / denominators with its error branches, parcor_stable decides "
+             "on the shifted denominator and never reads the numerator.  "
+             "Lean 4 theorems, for every order and any field: parcor as coded inverts the step-up recursion and "
              "step-up rebuilds the filter (whenever leading coefficient = den[0]); ParCorError iff some yielded "
              "k^2 = 1 (all inputs); levinson_durbin as coded = step-up of its reflection coefficients with "
              "error = r0*prod(1-k^2); gain invariance of the specification and of the repaired code, and its "
